@@ -11,6 +11,9 @@ from ..rules.kernels import canon_type, helpers_of, spec_nf, implementation_of, 
 def run(rep, fb, tier):
     spec = fb.spec()
     kf = fb.kernel_functions()
+    from ..rules import lints3 as _l3
+    _l3.rule_narrow_arith(rep, fb)
+    _l3.rule_cond_unsigned(rep, fb)
     rep.units = fb.units
     rep.assumptions += [
         "clang 14's parser/type checker and its JSON AST dump are correct",
